@@ -247,9 +247,9 @@ def main(tier):
     ck.extra["files"] = len(jobs)
     ck.extra["hazard_files"] = 2 * len(hz)
     ck.rule = ("greedy t-way covering rows over the statement feature model + random rows, %d statements per file, "
-               "alternating unstructured/structured, LF/CRLF and 3 configured-macro sets; one case = one generated "
+               "alternating unstructured/structured, LF/CRLF and %d configured-macro sets; one case = one generated "
                "statement judged against check report and edit decomposition; distinct_nontrivial = distinct "
-               "(style, eol, full feature vector) of asserted statements" % STMTS_PER_FILE)
+               "(style, eol, full feature vector) of asserted statements" % (STMTS_PER_FILE, len(MACRO_SETS)))
     ck.assumptions = ["generator ground truth for the canonical statement space of DESIGN 4.3",
                       "pinned stdout phrase 'Missing reference in file F, line L, column C'"]
     return ck.finish()
